@@ -118,7 +118,7 @@ def outer_values(ctx, cls, encl, extra, sa_module, how, key):
     return out
 
 
-def override_model(fn, dialect_name, outer=None):
+def override_model(fn, dialect_name, outer=None, shared=None):
     """LiteralCompiler.render_literal_value interpreted (fail-closed AST interpreter) for a str value under `dialect.name == dialect_name`:
     -> callable(value) -> literal text; raises _Delegates when str values are handed to super()."""
     from ..interp import Interp, Obj, Raised, Env
@@ -131,8 +131,13 @@ def override_model(fn, dialect_name, outer=None):
 
     def run(v):
         stubs = {'super': lambda it, *a: Obj('Super', render_literal_value=delegate)}
-        it = Interp({}, stubs)
-        it.module = mod if isinstance(mod, ast.Module) else None
+        if shared is not None and shared:
+            it = shared[0]          # one interpreter for a whole history of renderings: module-level objects live on between the calls
+        else:
+            it = Interp({}, stubs)
+            it.module = mod if isinstance(mod, ast.Module) else None
+            if shared is not None:
+                shared.append(it)
         env = Env()
         d = Obj('Dialect', name=dialect_name)
         env.set('dialect', d)
@@ -244,6 +249,34 @@ def run(ctx):
                        f'{fname}: for dialect {dn!r} the constant {bad[0][0]!r} is rendered as {bad[0][1]}, which {dn} reads as '
                        f'{"an unterminated / prematurely ended literal (the rest of the value becomes SQL)" if bad[0][2] is None else repr(bad[0][2])}'
                        if bad else '', file=RENDER, line=m.lineno, witness=f'Constant({bad[0][0]!r})' if bad else None)
+    # (1b) a literal's text is a function of the value and the target only - not of what was rendered before in this process: the same encoders evaluated as one
+    # history (every target, then every target again in reverse order) inside ONE interpreter, whose module-level objects persist, against the fresh evaluation
+    for fname, m in overrides:
+        encl_, extra_ = enclosing_params(m)
+        shared = []
+        order = list(names) + list(reversed(names))
+        diffs = []
+        for dn in order:
+            mod = modules.get(dn, dn)
+            outer_ = outer_values(ctx, cls, encl_, extra_, mod, 'name', dn) if extra_ else None
+            fresh, hist = override_model(m, mod, outer_), override_model(m, mod, outer_, shared=shared)
+            for v in C04.VALUE_PROBES:
+                try:
+                    a_ = fresh(v)
+                except _Delegates:
+                    break
+                try:
+                    b_ = hist(v)
+                except _Delegates:
+                    b_ = '<delegated>'
+                if a_ != b_:
+                    diffs.append((dn, v, a_, b_))
+            ctx.count('history_runs')
+        ctx.ob('C07.literal-history', fname, not diffs,
+               (f'{fname}: after literals were rendered for {order[:order.index(diffs[0][0])] or [diffs[0][0]]} the constant {diffs[0][1]!r} is rendered for {diffs[0][0]!r} as '
+                f'{diffs[0][3]} (in a fresh process: {diffs[0][2]}): the encoder keeps state between renderings, so the literal of one target depends on earlier use of another')
+               if diffs else '', file=RENDER, line=m.lineno,
+               witness=f"SqlalchemyRender('mysql').get_string(...) then SqlalchemyRender('postgres').get_string(Constant({diffs[0][1]!r}))" if diffs else None)
     # (2) the tree's own printers
     enc, steps, site = C04.encoder_model(ctx)
     g = load_dialect(ctx.src, 'mindsdb')
@@ -582,6 +615,36 @@ def check_number_printer(ctx):
     values = [0, 7, -1, 10 ** 20, 1.5, -2.25, 0.1, 1e-07, -3.5e-09, 1.5e+300, 1e+16, 123456789.123, True, False,
               # many significant digits far behind the point, the smallest / largest doubles, values next to a power of ten
               1.2345678e-12, 2.5e-20, 5e-324, 1.7976931348623157e+308, 0.30000000000000004, 9.999999999999999e-05, 1.0000000000000002, 123456789012345680.0, -4.9e-30]
+    # the kinds of value the grammars' number rules put into the tree decide what the printer has to cope with: nonterminals whose productions are one numeric token
+    import re as _re
+    from decimal import Decimal
+    from ..actions import kinds_for
+    for d in ('sqlite', 'mysql', 'mindsdb'):
+        g = load_dialect(ctx.src, d)
+        ak = kinds_for(ctx.src, d)
+        num_tokens = set()
+        for t in g.tokens:
+            r = g.lexer.rule(t)
+            if r is not None and any(_re.fullmatch(r.pattern, x, g.lexer.reflags) for x in ('12', '1.5')) and not _re.fullmatch(r.pattern, 'ab', g.lexer.reflags):
+                num_tokens.add(t)
+        by_nt = {}
+        for pr in g.productions[1:]:
+            by_nt.setdefault(pr.name, []).append(pr)
+        num_nts = sorted(nt for nt, prs in by_nt.items() if all(len(pr.rhs) == 1 and pr.rhs[0] in num_tokens for pr in prs))
+        ctx.need(len(num_nts) >= 2, f'{d}: the number nonterminals (one numeric token each) were not found: {num_nts}')
+        for nt in num_nts:
+            kinds = set(ak.nt[nt].kinds) if nt in ak.nt else {'?'}
+            ctx.need('?' not in kinds, f'{d}: the kind of value the number rule `{nt}` produces is not known ({sorted(kinds)})')
+            foreign = sorted(k for k in kinds if k not in ('int', 'float', 'ext:Decimal'))
+            ctx.ob('C07.number-printer', f'{d}:{nt}:value-kinds', not foreign,
+                   f'{d}: the number rule `{nt}` can put a value of kind {foreign} into the tree; the literal printers are defined (and checked) for int, float and Decimal values',
+                   file=g.file if hasattr(g, 'file') else site[0], line=by_nt[nt][0].func.lineno if by_nt[nt][0].func is not None else 1)
+            if 'ext:Decimal' in kinds:
+                # exact decimals: many digits, and magnitudes where str(Decimal) switches to exponent notation
+                for v in (Decimal('0.12345678901234567890'), Decimal('12345678901234567.25'), Decimal('0.00000012345678901234567'), Decimal('1E-7'),
+                          Decimal('0.0000000000001234567890123456'), Decimal('1.5')):
+                    if not any(v is x or (type(x) is type(v) and x == v) for x in values):
+                        values.append(v)
     ctx.setcount('number_probes', len(values))
     for v in values:
         text = enc(v)
@@ -592,7 +655,7 @@ def check_number_printer(ctx):
             ok = toks in (['TRUE'], ['FALSE']) and (body.upper() == 'TRUE') == v
         elif toks in (['INTEGER'], ['FLOAT']):
             try:
-                back = (int(body) if toks == ['INTEGER'] else float(body)) * (-1 if text.startswith('-') else 1)
+                back = (int(body) if toks == ['INTEGER'] else (Decimal(body) if isinstance(v, Decimal) else float(body))) * (-1 if text.startswith('-') else 1)
                 ok = back == v
             except ValueError:
                 ok = False
